@@ -35,10 +35,27 @@ pub fn spoof_case(r: &mut Rng, msgs: &[(Src, i64)], errors: bool) -> String {
 /// `late`: the messages arrive after the victim request's timeout has passed, while the lookup is kept alive by a
 /// younger request (to a node that a slow peer lists just before the timeout)
 pub fn spoof_case_x(r: &mut Rng, msgs: &[(Src, i64)], errors: bool, late: bool) -> String {
-    let mut s = Scn::new(r, 3, false, Default::default());
+    spoof_case_u(r, msgs, errors, late, false)
+}
+
+/// `unspecified`: the victim request is the bootstrap find_node of a node whose bootstrap address is 0.0.0.0:P (what
+/// `Info::local_addr()` of a local node reports): the destination ip says nothing, the port still has to match
+pub fn spoof_case_u(r: &mut Rng, msgs: &[(Src, i64)], errors: bool, late: bool, unspecified: bool) -> String {
+    let mut s = if unspecified {
+        crate::simclock::set_ms(1000);
+        crate::simclock::unmap_all();
+        crate::rng::tape_seed(r.next());
+        let peers: Vec<Peer> = (0..1).map(|i| Peer::new(peer_id(i, r))).collect();
+        let boot = SocketAddrV4::new(Ipv4Addr::new(0, 0, 0, 0), peers[0].addr.port());
+        Scn { node: Manual::new(&[boot], false, Default::default()), peers, now: 1000, sent: Vec::new(), ticks: 0, listed: None }
+    } else {
+        Scn::new(r, 3, false, Default::default())
+    };
     let target = Id::from(id20(r));
     let (tx, _rx) = flume::unbounded::<Box<[u8]>>();
-    s.node.actor.verif_get(GetRequestSpecific::GetValue(GetValueRequestArguments { target, seq: None, salt: None }), ResponseSender::Immutable(tx));
+    if !unspecified {
+        s.node.actor.verif_get(GetRequestSpecific::GetValue(GetValueRequestArguments { target, seq: None, salt: None }), ResponseSender::Immutable(tx));
+    }
     // collect the lookup's requests; the one to peer 0 is the victim, the others are answered honestly
     let mut victim: Option<(SocketAddrV4, u32)> = None;
     let mut slow: Option<(SocketAddrV4, u32)> = None;
@@ -46,7 +63,8 @@ pub fn spoof_case_x(r: &mut Rng, msgs: &[(Src, i64)], errors: bool, late: bool) 
         let mut v = None;
         let mut sl = None;
         s.step(&mut |s, inc| {
-            let is_get = matches!(as_request(&inc.msg).map(|q| &q.request_type), Some(RequestTypeSpecific::GetValue(_)));
+            let is_get = matches!(as_request(&inc.msg).map(|q| &q.request_type), Some(RequestTypeSpecific::GetValue(_)))
+                || (unspecified && matches!(as_request(&inc.msg).map(|q| &q.request_type), Some(RequestTypeSpecific::FindNode(_))));
             if is_get && inc.peer == 0 {
                 v = Some((inc.from, inc.msg.transaction_id));
                 Reply::Silent
@@ -164,7 +182,7 @@ pub fn spoof_case_x(r: &mut Rng, msgs: &[(Src, i64)], errors: bool, late: bool) 
     for _ in 0..6 {
         s.node.tick();
     }
-    let to = format!("({}, {})", u32::from(*p0.ip()), p0.port());
+    let to = format!("({}, {})", if unspecified { 0 } else { u32::from(*p0.ip()) }, p0.port());
     if errors {
         let voted = s.snap().mode.0 == Some(vote);
         format!("KSpoofErr {} {} [{}] {}", tid, to, model_msgs.join("; "), boolean(voted))
@@ -195,6 +213,12 @@ pub fn generate(seed: u64, scale: usize) -> Cases {
     cases.push("late_duplicate_genuine", spoof_case_x(&mut r, &[(Src::Right, 0), (Src::Right, 0), (Src::Right, 0)], false, true));
     cases.push("late_spoofed_then_genuine", spoof_case_x(&mut r, &[(Src::WrongPort, 0), (Src::Right, 0), (Src::WrongIp, 0), (Src::Right, 0)], false, true));
     cases.push("late_error_replayed", spoof_case_x(&mut r, &[(Src::WrongPort, 0), (Src::Right, 0), (Src::Right, 0)], true, true));
+    // a request sent to 0.0.0.0:P: any ip may answer it, but only from port P
+    for a in srcs {
+        cases.push("unspecified_destination", spoof_case_u(&mut r, &[(a, 0)], false, false, true));
+        cases.push("unspecified_destination", spoof_case_u(&mut r, &[(a, 0), (Src::Right, 0)], false, false, true));
+    }
+    cases.push("unspecified_destination", spoof_case_u(&mut r, &[(Src::WrongPort, 0), (Src::WrongPort, 0), (Src::Right, 0)], true, false, true));
     cases.push("error_genuine", spoof_case(&mut r, &[(Src::Right, 0)], true));
     cases.push("error_replayed", spoof_case(&mut r, &[(Src::WrongPort, 0), (Src::WrongPort, 0), (Src::Right, 0), (Src::Right, 0), (Src::WrongIp, 0)], true));
     for _ in 0..(10 * scale) {
